@@ -133,6 +133,17 @@ func kindStr(fc *go9p.Fcall) string {
 // hook: called by the library at its schedule points
 func (s *concSession) hook(point string, obj interface{}, a, b uint32) {
 	s.hookLocked(point, obj, a, b)
+	// a request the plan wants to hold at a schedule point that lies outside every lock
+	if point == "respond.R3" {
+		if r, ok := obj.(*go9p.SrvReq); ok {
+			if v, ok := pauseTag.Load(s); ok {
+				pt := v.(*tagPause)
+				if r.Tc.Tag == pt.tag && atomic.CompareAndSwapInt32(&pt.hit, 0, 1) {
+					<-pt.ch
+				}
+			}
+		}
+	}
 	// a goroutine the plan wants to hold at a schedule point outside every lock
 	if point == "respond.guarded" {
 		if v, ok := pauseAt.Load(gid()); ok {
@@ -157,6 +168,13 @@ func (s *concSession) hook(point string, obj interface{}, a, b uint32) {
 	}
 }
 
+type tagPause struct {
+	tag uint16
+	hit int32
+	ch  chan bool
+}
+
+var pauseTag sync.Map   // *concSession -> *tagPause: hold the Respond of the request with that tag at respond.R3
 var parBarrier sync.Map // *SrvReq -> *int32
 var pauseAt sync.Map    // goroutine id -> chan bool: hold that goroutine at respond.guarded
 
@@ -212,12 +230,13 @@ func (s *concSession) hookLocked(point string, obj interface{}, a, b uint32) {
 		s.sending = ridOf(req)
 		bl("DQ %d", s.sending)
 	case "send.written":
+		// the hand-back to the pool follows at once; it is logged here, BEFORE the channel send, because
+		// the receive loop may take the buffer (and log its TP) before a point after the send is reached
 		s.sending = -1
+		bl("RC %d", ridOf(req))
 	case "send.recycled":
-		if a == 1 {
-			bl("RC %d", ridOf(req))
-		} else {
-			bl("RD %d", ridOf(req))
+		if a != 1 {
+			s.note("reply-buffer-pool-full")
 		}
 	}
 	switch point {
@@ -1110,7 +1129,7 @@ func concSlowDestroy(maxpend int) string {
 		s.send(statReq(uint16(820+i), 0))
 	}
 	s.releaseRange(820, 823, 3, "independent")
-	ok := s.waitReplies(before+3, 1500*time.Millisecond)
+	ok := s.waitReplies(before+3, 4*time.Second)
 	if !ok {
 		s.mu.Lock()
 		s.note("C08.request_delayed_by_slow_FidDestroy_of_another_tag")
@@ -1267,6 +1286,45 @@ func concLateAnswer(maxpend int) string {
 
 var bufMode bool // srvconc buf: print the buffer life-cycle labels instead of the request life-cycle trace
 
+// kind "flushr3": the Tflush arrives while the target's Respond is between its post-processing
+// and the hand-over of the reply (held at the schedule point respond.R3)
+func concFlushAtR3(maxpend int, flushop bool) string {
+	s := newConcSession(maxpend, flushop)
+	s.setup()
+	const tt, ft = 1100, 1101
+	flushed := map[uint16]bool{tt: true}
+	pt := &tagPause{tag: tt, ch: make(chan bool)}
+	pauseTag.Store(s, pt)
+	defer pauseTag.Delete(s)
+	s.send(statReq(tt, 0))
+	s.releaseRange(tt, tt+1, 1, "answer-of-the-target")
+	deadline := time.Now().Add(2 * time.Second)
+	for atomic.LoadInt32(&pt.hit) == 0 && time.Now().Before(deadline) {
+		time.Sleep(20 * time.Microsecond)
+	}
+	s.send(flushReq(ft, tt))
+	// the flush is worked on (chained behind the target, or answered at once if the target is gone)
+	deadline = time.Now().Add(time.Second)
+	for time.Now().Before(deadline) {
+		s.mu.Lock()
+		seen := false
+		for _, l := range s.labels {
+			if strings.HasPrefix(l, "F1 ") {
+				seen = true
+			}
+		}
+		s.mu.Unlock()
+		if seen {
+			break
+		}
+		time.Sleep(20 * time.Microsecond)
+	}
+	time.Sleep(500 * time.Microsecond)
+	close(pt.ch)
+	s.waitReplies(4, 2*time.Second)
+	return s.finish("flushr3", flushed)
+}
+
 func modeSrvconc(tier string, args []string) {
 	bufMode = len(args) > 0 && args[0] == "buf"
 	rounds := 6
@@ -1297,6 +1355,10 @@ func modeSrvconc(tier string, args []string) {
 			}
 			jobs = append(jobs, func() string { return concSlowWrite(mp) })
 			jobs = append(jobs, func() string { return concLateAnswer(mp) })
+			for _, fo := range []bool{false, true} {
+				fo := fo
+				jobs = append(jobs, func() string { return concFlushAtR3(mp, fo) })
+			}
 			jobs = append(jobs, func() string { return concSlowDestroy(mp) })
 			for tk := 0; tk <= 4; tk++ {
 				tk := tk
